@@ -86,10 +86,15 @@ impl<T: 'static> AnyValue for FakeVal<T> {
 pub struct UserIter<I> {
     inner: I,
     delta: isize,
+    /// 0: always lies by delta; 1: honest on the first `len()` call, lies afterwards; 2: lies on the first call only
+    mode: u8,
+    calls: std::cell::Cell<u32>,
 }
 impl<I> UserIter<I> {
-    pub fn new(inner: I, delta: isize) -> Self {
-        UserIter { inner, delta }
+    /// `code`: see `ops::lie_decode`
+    pub fn new(inner: I, code: isize) -> Self {
+        let (delta, mode) = lie_decode(code.clamp(-128, 127) as i8);
+        UserIter { inner, delta, mode, calls: std::cell::Cell::new(0) }
     }
 }
 impl<I: ExactSizeIterator> Iterator for UserIter<I> {
@@ -107,7 +112,14 @@ impl<I: ExactSizeIterator> ExactSizeIterator for UserIter<I> {
     fn len(&self) -> usize {
         // `len()` of the replacement iterator is user code too
         reg::user_call("repl-len");
-        (self.inner.len() as isize + self.delta).max(0) as usize
+        let n = self.calls.get();
+        self.calls.set(n + 1);
+        let lie = match self.mode {
+            0 => true,
+            1 => n >= 1,
+            _ => n == 0,
+        };
+        (self.inner.len() as isize + if lie { self.delta } else { 0 }).max(0) as usize
     }
 }
 
@@ -525,16 +537,21 @@ impl<'a, T: Elem + SatisfyTraits<Tr>, M: MemCaps, Tr: ?Sized + TrCaps> Cx<'a, T,
             Op::Get { v, at, how } => self.exec_get(*v, *at, *how),
             Op::Iter { v, how, rev } => self.exec_iter(*v, *how, *rev),
             Op::Drain { v, lo, hi, typed, script, end } => {
+                let len = self.vec(*v).len();
+                let (lo, hi) = (at_len(*lo, len), at_len(*hi, len));
                 if *typed {
                     let mut tv = self.vec(*v).downcast_mut::<T>().expect("typed view of the right type");
-                    let it = tv.drain((*lo, *hi));
+                    let it = tv.drain((lo, hi));
                     self.run_script_typed(it, script, *end)
                 } else {
-                    let it = self.vec(*v).drain((*lo, *hi));
+                    let it = self.vec(*v).drain((lo, hi));
                     self.run_script(it, script, *end)
                 }
             }
-            Op::Splice { v, lo, hi, typed, repl, script, end } => self.exec_splice(*v, (*lo, *hi), *typed, repl, script, *end),
+            Op::Splice { v, lo, hi, typed, repl, script, end } => {
+                let len = self.vec(*v).len();
+                self.exec_splice(*v, (at_len(*lo, len), at_len(*hi, len)), *typed, repl, script, *end)
+            }
             Op::CloneVec { v, into } => {
                 assert_ne!(v, into, "HARNESS: clone into self");
                 match Tr::clone_vec(self.vec(*v)) {
